@@ -134,6 +134,7 @@ class SdoClient {
   std::function<void()> between;     // interleaving hook, called before every request of a transfer
   std::vector<Frame> foreign;        // frames seen on other identifiers while a transfer ran
   std::function<void()> before_ack;
+  std::vector<Frame> *rsplog = nullptr;   // when set: every response frame, byte for byte, as it arrived
   SdoClient(Sim &sim, uint32_t rq, uint32_t rs) : s(sim), c(sim.c), req_id(rq), rsp_id(rs) {}
 
   std::vector<Frame> xfer(const Frame &f) {
@@ -142,7 +143,7 @@ class SdoClient {
     VLOG(c, "  -> %s", f.str().c_str());
     s.rx(f);
     std::vector<Frame> out;
-    for (auto &t : s.tx) { if (t.id == rsp_id) { out.push_back(t); VLOG(c, "  <- %s", t.str().c_str()); } else foreign.push_back(t); }
+    for (auto &t : s.tx) { if (t.id == rsp_id) { out.push_back(t); if (rsplog) rsplog->push_back(t); VLOG(c, "  <- %s", t.str().c_str()); } else foreign.push_back(t); }
     s.clear_tx();
     return out;
   }
